@@ -1,5 +1,7 @@
+import json
 """C07 name resolution: Context::lookup / Registry::lookup* on a symbolic database over a universe of colliding names."""
 import z3
+from fractions import Fraction
 from .common import *  # noqa
 from mirsym.lib import MapV
 
@@ -29,14 +31,7 @@ def build_registry(ex, I, stems, prefixes, tag=''):
         pv = I.real('%spre_%s' % (tag, p))
         plist.append(Tup([p, rational(pv)]))
         info['prefix'].append((p, pv))
-    vals = {}
-    for f in fields:
-        vals[f] = MapV()
-    vals['base_units'] = base
-    vals['units'] = units
-    vals['prefixes'] = Arr(plist)
-    vals['datepatterns'] = Arr([])
-    return Struct('Registry', [vals[f] for f in fields]), info
+    return make_struct(ex, 'Registry', {'base_units': base, 'units': units, 'prefixes': Arr(plist)}), info
 
 
 def spec_exact(info, name):
@@ -98,7 +93,7 @@ class Lookup(Harness):
         pv = I.real('ans_value')
         vals = {'registry': reg, 'temporaries': MapV(), 'now': Opaque('now'), 'use_humanize': True, 'save_previous_result': True,
                 'previous_result': some(ex, number(rational(pv), dim({'u_ans': (True, 1)}))) if has_prev else none(ex)}
-        ctxv = Struct('Context', [vals[f] for f in cf])
+        ctxv = make_struct(ex, 'Context', vals)
         return [ref(ctxv), q], {'info': info, 'q': q, 'has_prev': has_prev, 'pv': pv}
 
     def post(self, ex, ctx, outcome):
@@ -140,12 +135,62 @@ class Lookup(Harness):
         return c
 
     def native(self, inputs, label):
-        # the same collision shapes on the real database
-        return [{'mode': 'lookup', 'name': n} for n in ('ks', 'ms', 'min', 'mins', 'kin', 'K', 'Ks', 'kmin', 'mm', 'pts', 'ft', 'feet', 'kft')]
+        # the database the solver's model describes, built natively (Registry's fields are public), plus the same
+        # collision shapes on the bundled database for the record
+        db = synthetic_db(inputs, '', self.stems, self.prefixes)
+        if inputs.get('previous_result None/Some'):
+            db['prev'] = str(inputs.get('ans_value') or '1')
+        return [dict(db, mode='lookup_seq', names=[inputs['q']])] + [{'mode': 'lookup', 'name': n} for n in ('ks', 'ms', 'min', 'kin')]
 
     def judge(self, inputs, label, obs):
-        return 'kernel-only', 'symbolic database configuration (not the bundled one): ' + ', '.join(
-            '%s->%s' % (o.get('id'), (o.get('lookup') or {}).get('value')) for o in obs[:4])
+        o = obs[0]
+        if o.get('outcome') != 'ok':
+            return True, 'lookup on the model database: %s %s' % (o.get('outcome'), o.get('panic', ''))
+        got = o['lookups'][0]['lookup']
+        q = inputs['q']
+        db = synthetic_db(inputs, '', self.stems, self.prefixes)
+        if q in ('ans', 'ANS', '_'):
+            want = ({'value': frac_str(inputs.get('ans_value') or '1'), 'unit': {'u_ans': 1}}
+                    if inputs.get('previous_result None/Some') else None)
+        else:
+            want = concrete_lookup(db, q)
+        g = None if got is None else {'value': frac_str(got['value']), 'unit': got['unit']}
+        if g != want:
+            return True, '`%s` on database %s resolves to %s; exact > prefix in list order > plural gives %s' % (q, json.dumps(db), json.dumps(g), json.dumps(want))
+        return False, '`%s` resolves to %s as specified' % (q, json.dumps(g))
+
+
+def frac_str(s):
+    f = Fraction(str(s))
+    return '%d/%d' % (f.numerator, f.denominator)
+
+
+def concrete_lookup(db, name):
+    """the documented resolution order on a concrete database: exact (base unit, then unit), then prefix + exact in
+    prefix-list order, then the same for the name without a trailing `s`"""
+    def exact(n):
+        if n in db['bases']:
+            return Fraction(1), {n: 1}
+        if n in db['units']:
+            return Fraction(db['units'][n]), {'u_' + n: 1}
+        return None
+
+    def with_prefix(n):
+        r = exact(n)
+        if r:
+            return r
+        for p, pv in db['prefixes']:
+            if n.startswith(p):
+                r = exact(n[len(p):])
+                if r:
+                    return r[0] * Fraction(pv), r[1]
+        return None
+    r = with_prefix(name)
+    if r is None and name.endswith('s'):
+        r = with_prefix(name[:-1])
+    if r is None:
+        return None
+    return {'value': '%d/%d' % (r[0].numerator, r[0].denominator), 'unit': r[1]}
 
 
 def harnesses(tier):
@@ -163,7 +208,7 @@ class CanonicalizePreservesValue(Harness):
     _concrete = None
     PREFIXES = [('deci', 'x'), ('d', 'x'), ('deca', 'y'), ('da', 'y')]
     STEMS = ['at', 't', 'a', 'ts']
-    QUERIES = ['dat', 'dt', 'da', 'dats', 'dts', 'decit', 'decaat', 'at', 'ats', 'daa', 'dda']
+    QUERIES = ['dat', 'dt', 'da', 'dats', 'dts', 'decit', 'decaat', 'at', 'ats', 'daa', 'dda', 'atss', 'tss', 'dtss', 'tsss']
 
     def __init__(self):
         self.describe = ('canonicalize then lookup vs lookup for %d names over stems %s (each present or not) and prefixes %s with '
@@ -192,11 +237,11 @@ class CanonicalizePreservesValue(Harness):
         vals['definitions'] = defs
         vals['prefixes'] = plist
         vals['datepatterns'] = Arr([])
-        reg = Struct('Registry', [vals[f] for f in fields])
+        reg = make_struct(ex, 'Registry', {'units': units, 'definitions': defs, 'prefixes': plist})
         cf = ex.prog.src.structs['Context']
         cv = {'registry': reg, 'temporaries': MapV(), 'now': Opaque('now'), 'use_humanize': True, 'save_previous_result': False,
               'previous_result': none(ex)}
-        ctxv = Struct('Context', [cv.get(f, Opaque(f)) for f in cf])
+        ctxv = make_struct(ex, 'Context', cv)
         q = self.QUERIES[ex.choose(len(self.QUERIES), 'name')]
         return [ctxv, q], {'q': q}
 
@@ -239,7 +284,8 @@ class CanonicalizePreservesValue(Harness):
         c['inputs']['q'] = ctx['q']
         return c
 
-    NAMES = ['dat', 'dau', 'daA', 'dasb', 'daustbl', 'yoctodecillion', 'mm', 'km', 'dam', 'das', 'kg', 'ft', 'micron', 'feet', 'kft', 'mins', 'ks']
+    NAMES = ['dat', 'dau', 'daA', 'dasb', 'daustbl', 'yoctodecillion', 'mm', 'km', 'dam', 'das', 'kg', 'ft', 'micron', 'feet', 'kft', 'mins', 'ks',
+             'mss', 'kss', 'gausss', 'kilogausss', 'inchess', 'sss']
 
     def native(self, inputs, label):
         # the same question on the bundled database, for the names that split in two ways there (d/da, y/yocto) and ordinary ones
@@ -318,3 +364,98 @@ _c07_all = harnesses
 
 def harnesses(tier):   # noqa: F811
     return _c07_all(tier) + [StaticDeterminism()]
+
+
+# --------------------------------------------------------------------------------------------------------------
+class LookupTwice(Harness):
+    """determinism across a history: looking another name up first must not change what a name denotes"""
+    name = 'context.lookup.history_independent'
+    props = ('C07', 'C15')
+    entry_name = 'Context::lookup x2 vs Context::lookup on an identical fresh database'
+    loop_bound = 12
+    _concrete = None
+    PAIRS = [('km', 'ks'), ('ks', 'kis'), ('mm', 'kin'), ('kis', 'ks'), ('ms', 'mins'), ('kmin', 'kis'), ('kim', 'kis'), ('kiin', 'kins'), ('kis', 'kim')]
+
+    def __init__(self):
+        self.describe = 'lookup(first); lookup(second) on one context compared with lookup(second) on a fresh identical context, for %d name pairs over the colliding universe' % len(self.PAIRS)
+        self.bounds = ['histories of length 2', 'universe as in context.lookup']
+        self.expect_classes = ['return']
+
+    def build(self, ex, I):
+        first, second = self.PAIRS[ex.choose(len(self.PAIRS), 'pair')]
+        regs = []
+        for tag in ('a_', 'b_'):
+            reg, info = build_registry(ex, I, STEMS[:7], ['k', 'ki', 'm'], tag)
+            regs.append((reg, info))
+        # the two databases are identical
+        (ra, ia), (rb, ib) = regs
+        for n in ia['base']:
+            ex.assume(ia['base'][n] == ib['base'][n])
+            ex.assume(ia['unit'][n][0] == ib['unit'][n][0])
+            ex.assume(ia['unit'][n][1] == ib['unit'][n][1])
+        for (p1, v1), (p2, v2) in zip(ia['prefix'], ib['prefix']):
+            ex.assume(v1 == v2)
+        cf = ex.prog.src.structs['Context']
+        ctxs = []
+        for reg in (ra, rb):
+            cv = {'registry': reg, 'temporaries': MapV(), 'previous_result': none(ex)}
+            ctxs.append(make_struct(ex, 'Context', cv))
+        return [ctxs[0], ctxs[1], first, second], {'first': first, 'second': second}
+
+    def entry(self, ex, args, ctx):
+        c1, c2, first, second = args
+        r1 = ref(c1)
+        ex.call(None, 'loader::context::Context::lookup', [r1, first])
+        a = ex.call(None, 'loader::context::Context::lookup', [r1, second])
+        b = ex.call(None, 'loader::context::Context::lookup', [ref(c2), second])
+        return Tup([a, b])
+
+    def post(self, ex, ctx, outcome):
+        a, b = (deref_all(x) for x in deref_all(outcome[1]).fields)
+        obs = [('`%s` resolves the same way after looking `%s` up' % (ctx['second'], ctx['first']), a.variant == b.variant)]
+        if a.variant == 1 and b.variant == 1:
+            va, da = number_parts(a.fields[0])
+            vb, db = number_parts(b.fields[0])
+            obs.append(('... to the same value', zreal(numeric_parts(va)[1]) == zreal(numeric_parts(vb)[1])))
+            obs.append(('... and the same entry', sorted(k[2:] for k in da) == sorted(k[2:] for k in db)))
+        return obs
+
+    def case(self, ctx, vals, label):
+        c = Harness.case(self, ctx, vals, label)
+        c['inputs']['first'] = ctx['first']
+        c['inputs']['second'] = ctx['second']
+        return c
+
+    def native(self, inputs, label):
+        db = synthetic_db(inputs, 'a_', STEMS[:7], ['k', 'ki', 'm'])
+        first, second = inputs['first'], inputs['second']
+        return [dict(db, mode='lookup_seq', names=[first, second]), dict(db, mode='lookup_seq', names=[second]),
+                {'mode': 'query', 'text': '1 dat'}, {'mode': 'query', 'pre': ['3 dam -> m'], 'text': '1 dat'}]
+
+    def judge(self, inputs, label, obs):
+        bad = []
+        if obs[0].get('outcome') == 'ok' and obs[1].get('outcome') == 'ok':
+            after, fresh = obs[0]['lookups'][-1]['lookup'], obs[1]['lookups'][-1]['lookup']
+            if after != fresh:
+                bad.append('`%s` after looking `%s` up: %s; on a fresh identical database: %s' % (inputs['second'], inputs['first'], json.dumps(after), json.dumps(fresh)))
+        else:
+            bad.append('lookup outcome %s / %s' % (obs[0].get('outcome'), obs[1].get('outcome')))
+        if obs[2].get('display') != obs[3].get('display'):
+            bad.append('bundled database: `1 dat` fresh: %s; after `3 dam -> m`: %s' % (obs[2].get('display'), obs[3].get('display')))
+        return (bool(bad), '; '.join(bad) or 'history independent natively')
+
+
+def synthetic_db(inputs, tag, stems, prefixes):
+    """the database a solver model describes, for the observer's lookup_seq mode"""
+    def val(x):
+        return str(x) if x is not None else '1'
+    return {'bases': [n for n in stems if inputs.get('%sbase_%s' % (tag, n))],
+            'units': {n: val(inputs.get('%sval_%s' % (tag, n))) for n in stems if inputs.get('%sunit_%s' % (tag, n))},
+            'prefixes': [[p, val(inputs.get('%spre_%s' % (tag, p)))] for p in prefixes]}
+
+
+_c07_prev2 = harnesses
+
+
+def harnesses(tier):   # noqa: F811
+    return _c07_prev2(tier) + [LookupTwice()]
